@@ -536,9 +536,29 @@ def gen_texts(rng, n, seeds):
 
 # ------------------------------------------------------------------ Coq terms
 
+def cB(b):
+    """byte string as ConfigCheck.B <length> <one hex numeral>: parsed far faster than a list of numerals"""
+    b = bytes(b)
+    return "(@nil N)" if not b else "(B %d 0x%s)" % (len(b), b.hex())
+
+
+NAMES = {}
+
+
+def cname(n):
+    """a Go field name, defined once in the cases file and used by reference"""
+    if n not in NAMES:
+        NAMES[n] = "nm_%d" % len(NAMES)
+    return NAMES[n]
+
+
+def name_defs():
+    return "".join("Definition %s : bytes := Eval vm_compute in %s.\n" % (v, cB(k.encode())) for k, v in NAMES.items())
+
+
 def cval(v):
     if "s" in v:
-        return "VStr %s" % cbytes(bytes.fromhex(v["s"]))
+        return "VStr %s" % cB(bytes.fromhex(v["s"]))
     if "b" in v:
         return "VBool %s" % cbool(v["b"])
     if "i" in v:
@@ -552,7 +572,7 @@ def cnamed(d, skip=("Role",)):
     for name in sorted(d):
         if name in skip or "other" in d[name]:
             continue
-        items.append("(%s, %s)" % (cbytes(name.encode()), cval(d[name])))
+        items.append("(%s, %s)" % (cname(name), cval(d[name])))
     return clist(items)
 
 
@@ -565,7 +585,7 @@ def cobserved(o):
 
 
 def cintended(l, subst):
-    return clist(["(%s, %s)" % (cbytes(n.encode()), cval(subst(v))) for n, v in l])
+    return clist(["(%s, %s)" % (cname(n), cval(subst(v))) for n, v in l])
 
 
 def parse_detail(txt):
@@ -677,6 +697,10 @@ def materialise(cases):
 
 def run(chk, replay=None):
     st = vlib.std_coq_stage(chk, "PropC19", gen=True)
+    ok, out = vlib.coq_make(["ConfigCheck.vo"])        # used by the generated cases files, not by PropC19.v
+    if not ok:
+        st["build_ok"] = False
+        st["log"] = (st.get("log") or "") + "\nConfigCheck.v does not build:\n" + out[-2000:]
     check_cases(chk, st, replay)
 
 
@@ -744,30 +768,28 @@ def check_cases(chk, st, replay=None):
                           "observed": o}, sig="c19-lexer-%s" % o["outcome"])
 
     # ---- evaluate inside Coq
-    ccases, mcases, midx = [], [], []
+    xcases = []
     for i, (c, m, o) in enumerate(zip(cases, mat, obs)):
         args, files, subv = m
-        fmap = clist(["(%s, %s)" % (cbytes(p), cbytes(t)) for p, t in files.items()])
-        ccases.append("(%s, %s, %s)" % (clist([cbytes(a) for a in args]), fmap, cobserved(o)))
-        if c["kind"] in ("main", "malformed", "dq"):
-            midx.append(i)
-            mcases.append("(%s, %s, %s, %s)" % (cbool(c["accept"]), cintended(c["cmd"], subv), cintended(c["fil"], subv),
-                                               cobserved(o)))
+        fmap = clist(["(%s, %s)" % (cB(p), cB(t)) for p, t in files.items()])
+        monitored = c["kind"] in ("main", "malformed", "dq")
+        xcases.append("((%s, %s, %s), (%s, %s, %s, %s))" % (
+            clist([cB(a) for a in args]), fmap, cobserved(o), cbool(monitored), cbool(c["accept"]),
+            cintended(c["cmd"], subv) if monitored else "[]", cintended(c["fil"], subv) if monitored else "[]"))
 
     def dterm(t, o):
-        return "(%s, %s, %s)" % (cbytes(t), cbool(o["outcome"] == "ok"), cnamed(o.get("cfg") or {}, skip=("Role", "printVersion")))
+        return "(%s, %s, %s)" % (cB(t), cbool(o["outcome"] == "ok"), cnamed(o.get("cfg") or {}, skip=("Role", "printVersion")))
     d_ok = [i for i in range(len(texts)) if dobs[i]["outcome"] in ("ok", "err") and mobs[i]["outcome"] in ("ok", "err")]
     hdr = ("From Coq Require Import NArith ZArith List Bool.\n"
            "From Verif Require Import Common ConfigBase Config ConfigInst ConfigMonitor ConfigCheck.\n"
            "From Verif.Gen Require Import Flags_gen.\nImport ListNotations.\nOpen Scope N_scope.\n")
-    v1 = hdr + """
-Definition cases : list ccase := %s.
-Definition mcases : list mcase := %s.
-Definition unsup_idx := Eval vm_compute in bad_idx (fun c => negb (case_unsup c)) cases 0.
-Definition corr_bad := Eval vm_compute in bad_idx (corr_configure default_listen_linux) cases 0.
-Definition prop_detail := Eval vm_compute in detail_idx mcases 0.
+    v1 = hdr + name_defs() + """
+Definition xcases : list xcase := %s.
+Definition unsup_idx := Eval vm_compute in bad_idx (fun x => negb (case_unsup (fst x))) xcases 0.
+Definition corr_bad := Eval vm_compute in bad_idx (fun x => corr_configure default_listen_linux (fst x)) xcases 0.
+Definition prop_detail := Eval vm_compute in detail_idx xcases 0.
 Print unsup_idx. Print corr_bad. Print prop_detail.
-""" % (clist(ccases) if ccases else "[]", clist(mcases) if mcases else "[]")
+""" % (clist(xcases) if xcases else "[]")
     rc1, cout1 = vlib.coq_eval("cases_c19_cfg", v1, timeout=600)
     res = {k: vlib.parse_nat_list(vlib.parse_printed(cout1, k)) for k in ("unsup_idx", "corr_bad")}
     detail = parse_detail(vlib.parse_printed(cout1, "prop_detail"))
@@ -778,7 +800,8 @@ Print unsup_idx. Print corr_bad. Print prop_detail.
     SH = 400
     for s0 in range(0, len(d_ok), SH):
         ids = d_ok[s0:s0 + SH]
-        v2 = hdr + """
+        body = (clist([dterm(texts[i], dobs[i]) for i in ids]), clist([dterm(texts[i], mobs[i]) for i in ids]))
+        v2 = hdr + name_defs() + """
 Definition dmain : list dcase := %s.
 Definition dmirror : list dcase := %s.
 Definition dmain_unsup := Eval vm_compute in bad_idx (fun c => negb (dcase_unsup cfg_fields c)) dmain 0.
@@ -786,7 +809,7 @@ Definition dmirror_unsup := Eval vm_compute in bad_idx (fun c => negb (dcase_uns
 Definition dmain_bad := Eval vm_compute in bad_idx (corr_decode cfg_fields default_cfg) dmain 0.
 Definition dmirror_bad := Eval vm_compute in bad_idx (corr_decode mirror_fields mirror_init) dmirror 0.
 Print dmain_unsup. Print dmirror_unsup. Print dmain_bad. Print dmirror_bad.
-""" % (clist([dterm(texts[i], dobs[i]) for i in ids]), clist([dterm(texts[i], mobs[i]) for i in ids]))
+""" % body
         rc2, cout2 = vlib.coq_eval("cases_c19_dec_%d" % (s0 // SH), v2, timeout=600)
         for k in ("dmain_unsup", "dmirror_unsup", "dmain_bad", "dmirror_bad"):
             l = vlib.parse_nat_list(vlib.parse_printed(cout2, k))
@@ -845,10 +868,13 @@ Print dmain_unsup. Print dmirror_unsup. Print dmain_bad. Print dmirror_bad.
         chk.sample({"text": texts[-1].decode("latin-1"), "observed": dobs[-1]["outcome"]})
 
     # ---- decide: the property (one replay per signature, at most a few unsigned ones)
-    seen, unsigned = set(), [0]
+    seen, unsigned, other = set(), [0], [0]
     real_fail = chk.fail
+    finding_sigs = ("c19-dquote-escaped-quote",)
 
     def fail_once(name, content, sig=None, **kw):
+        if sig not in finding_sigs:
+            other[0] += 1
         if sig is not None:
             if sig in seen:
                 return
@@ -859,25 +885,9 @@ Print dmain_unsup. Print dmirror_unsup. Print dmain_bad. Print dmirror_bad.
                 return
         real_fail(name, content, sig=sig, **kw)
     for j, names in detail:
-        i = midx[j]
+        i = j
         c, o = cases[i], obs[i]
-        given = set(n for n, _ in c["cmd"]) | set(n for n, _ in c["fil"])
-        rest = []
-        for n in names:
-            if n == "DetectKubernetes" and n not in given:
-                fail_once("default_detect_kubernetes.json",
-                         {"what": "utilization.detect_kubernetes is documented (newrelic.cfg.template) with default true; "
-                                  "not given anywhere, the daemon resolves it to false", "cases": [c], "observed": o},
-                         sig="c19-default-detect-kubernetes")
-            elif n == "WaitForPort" and n not in given and o.get("legacy"):
-                fail_once("legacy_wait_for_port.json",
-                         {"what": "--wait-for-port is documented with default 3s; on the legacy-flag path the built-in "
-                                  "default is 0 (no waiting)", "cases": [c], "observed": o},
-                         sig="c19-legacy-wait-for-port-default")
-            else:
-                rest.append(n)
-        if not rest:
-            continue
+        rest = list(names)
         if c["kind"] == "dq":
             fail_once("dquote_escaped_quote.json",
                      {"what": "a double-quoted value containing \\\" is cut at the escaped quote (ReadBytes('\"'))",
@@ -911,14 +921,19 @@ Print dmain_unsup. Print dmirror_unsup. Print dmain_bad. Print dmirror_bad.
         if db:
             broken.append("correspondence Config.decode_effects vs config.ParseString (%s) differs on texts %s; first: %r observed %s"
                           % (which, db[:10], texts[db[0]], json.dumps((dobs if k == "dmain_bad" else mobs)[db[0]])[:1200]))
-    if broken and not chk.violations and not chk.known_hits:
+    # the known finding of the unchanged tree must not hide a broken proof or correspondence: only a property
+    # failure OTHER than that one counts as the failing input
+    panics = any(o["outcome"] in ("panic", "hang") for o in list(obs) + list(dobs) + list(mobs))
+    if broken and other[0] == 0 and not panics:
         chk.fail("broken.txt", "\n\n".join(broken), no_input=True)
     if broken:
         chk.notes.append("correspondence/proof problems: " + " | ".join(b[:300] for b in broken))
         # keep a replay of the differing inputs
         chk.replay_file("corr_inputs.json", {"cases": [cases[i] for i in cb[:20]],
                                               "texts": [hx(texts[i]) for i in (dres.get("dmain_bad", []) + dres.get("dmirror_bad", []))[:20]]})
-    chk.cov["disagreements"] = {"configure": len(cb), "decode_main": len(dres.get("dmain_bad", [])),
-                                "decode_mirror": len(dres.get("dmirror_bad", [])), "monitor": len(detail)}
+    chk.cov["disagreements"] = {"configure": len(cb),
+                                "decode_main": len(set(dres.get("dmain_bad", [])) - set(dres.get("dmain_unsup", []))),
+                                "decode_mirror": len(set(dres.get("dmirror_bad", [])) - set(dres.get("dmirror_unsup", []))),
+                                "monitor_cases_flagged": len(detail)}
     chk.assumptions += ["rune classes: the unicode package of the local toolchain (Gen/Unicode_gen.v)",
                         "GOOS=linux, 64-bit int", "the input reader fails only with EOF"]
